@@ -93,7 +93,7 @@ Suffix(s, n) == SubSeq(s, Len(s) - n + 1, Len(s))
 \* (Heikin-Ashi with a lifespan is left to C15_Window: when the predecessor of the forming
 \*  bucket has been trimmed away the recurrence restarts, and no property quantifies over
 \*  that combination)
-Master == (ok /\ ~(cfg.ha /\ cfg.life >= 0)) =>
+Master == (ok /\ ~(cfg.ha /\ cfg.life >= 0 /\ cfg.tf # 0)) =>
                 /\ CoreSeq(cs) = ShownDef(raw, cfg)
                 /\ [i \in 1..Len(cs) |-> CleanCore(cs[i])] = CleanDef(raw, cfg)
 
@@ -125,7 +125,7 @@ C12_Fill ==
 \* C11: shown candles follow the HA recurrence over the (collapsed) raw candles, each
 \* converted exactly once (tagged, clean values = raw), raw values recoverable
 C11_HA ==
-  (ok /\ cfg.ha /\ cfg.life < 0) =>
+  (ok /\ cfg.ha /\ (cfg.life < 0 \/ cfg.tf = 0)) =>
      LET rs == Resample(CoreSeq(raw), cfg.tf)
          ha == HADef(rs)
      IN /\ CoreSeq(cs) = Suffix(ha, Len(cs))
